@@ -206,7 +206,7 @@ def gen_schema_x(rng, idx, max_depth=3, defaults=True, top_mand=0.25, uniques=0.
         for _ in range(rng.choice([1, 1, 2])):
             if not cand:
                 break
-            # leaves with a default below a case / presence container are where "default in use" matters (F60)
+            # leaves with a default below a case / presence container are where "default in use" matters (F175)
             pref = [c for c in cand if c.dflt is not None and c.parent is not lst]
             first = rng.choice(pref) if pref and rng.random() < 0.5 else rng.choice(cand)
             same = [c for c in cand if c.config == first.config and c is not first]
